@@ -258,15 +258,22 @@ def drive_desc(case):
 
 
 KINDS = ["AssertThat", "ExpectThat", "AssertThatFn"]
+EXCS = ["XSkip", "XFail", "XXFail", "XUXSuccess", "XErr"]
+OUTCOMES = {"addSuccess": "Success", "addFailure": "Failure", "addError": "Error", "addSkip": "Skip",
+            "addExpectedFailure": "ExpFailure", "addUnexpectedSuccess": "UnexpSuccess"}
 
 
 def drive_test(case):
+    """A statement is [kind, mis, flag]: kind 0/1/2 = assertThat/expectThat/assert_that on a matcher that matches
+    (mis None) or mismatches with the details mis, flag = with message and verbose; kind 3 = raise, mis = index
+    into EXCS, flag = raise the exception class directly instead of going through skipTest/fail/expectFailure."""
     import testtools
     from testtools.assertions import assert_that
     from testtools.content import text_content
+    from testtools.testcase import _ExpectedFailure, _UnexpectedSuccess
     from testtools.testresult.doubles import ExtendedTestResult
-    log = []
-    raised = []
+    ran = []          # one entry per user function that was entered: [did statement k raise ...]
+    done = []         # how many of them have finished
 
     class FakeMismatch:
         def __init__(self, details):
@@ -288,49 +295,83 @@ def drive_test(case):
         def __str__(self):
             return "Fake()"
 
-    class T(testtools.TestCase):
-        def setUp(self):
-            super().setUp()
-            self.addCleanup(log.append, "cleanup")
+    class Boom(Exception):
+        pass
 
-        def tearDown(self):
-            log.append("teardown")
-            super().tearDown()
+    def do_raise(self, code, direct):
+        if code == 0:
+            if direct:
+                raise self.skipException("skipped caf\xe9")
+            self.skipTest("skipped caf\xe9")
+        elif code == 1:
+            if direct:
+                raise self.failureException("failed")
+            self.fail("failed")
+        elif code == 2:
+            if direct:
+                raise _ExpectedFailure(sys.exc_info())
+            self.expectFailure("known bug", self.assertEqual, 1, 0)
+        elif code == 3:
+            if direct:
+                raise _UnexpectedSuccess()
+            self.expectFailure("known bug", self.assertEqual, 1, 1)
+        else:
+            raise (Boom("boom") if direct else ValueError("boom"))
+        raise RuntimeError("harness: statement did not raise")     # pragma: no cover
 
-        def test_x(self):
-            for n, t in case["pre"]:
-                self.addDetail(n, text_content("tok:%d" % t))
-            for kind, mis, msg in case["steps"]:
-                m = Fake(mis)
-                message = "msg \xe9" if msg else ""
+    def run_stmts(self, stmts):
+        raised = []
+        ran.append(raised)
+        try:
+            for kind, mis, flag in stmts:
                 try:
-                    if kind == 0:
-                        self.assertThat(1, m, message, verbose=bool(msg))
-                    elif kind == 1:
-                        self.expectThat(1, m, message, verbose=bool(msg))
+                    if kind == 3:
+                        do_raise(self, mis, flag)
                     else:
-                        assert_that(1, m, message, verbose=bool(msg))
+                        m = Fake(mis)
+                        message = "msg \xe9" if flag else ""
+                        if kind == 0:
+                            self.assertThat(1, m, message, verbose=bool(flag))
+                        elif kind == 1:
+                            self.expectThat(1, m, message, verbose=bool(flag))
+                        else:
+                            assert_that(1, m, message, verbose=bool(flag))
                     raised.append(False)
                 except BaseException:
                     raised.append(True)
                     raise
-            log.append("body-done")
+        finally:
+            done.append(1)
+
+    class T(testtools.TestCase):
+        def setUp(self):
+            super().setUp()
+            for c in case["cleanups"]:
+                self.addCleanup(run_stmts, self, c)
+            for n, t in case["pre"]:
+                self.addDetail(n, text_content("tok:%d" % t))
+            run_stmts(self, case["setup"])
+
+        def tearDown(self):
+            run_stmts(self, case["teardown"])
+            super().tearDown()
+
+        def test_x(self):
+            run_stmts(self, case["body"])
 
     class Rec(ExtendedTestResult):
+        at_outcome = None
+
         def _note(self):
-            self.at_outcome = list(log)
+            self.at_outcome = (len(ran), len(done))
 
-        def addSuccess(self, test, details=None):
+    def noting(name):
+        def method(self, *a, **kw):
             self._note()
-            return super().addSuccess(test, details=details)
-
-        def addFailure(self, test, err=None, details=None):
-            self._note()
-            return super().addFailure(test, err, details=details)
-
-        def addError(self, test, err=None, details=None):
-            self._note()
-            return super().addError(test, err, details=details)
+            return getattr(ExtendedTestResult, name)(self, *a, **kw)
+        return method
+    for name in OUTCOMES:
+        setattr(Rec, name, noting(name))
 
     res = Rec()
     T("test_x").run(res)
@@ -339,7 +380,7 @@ def drive_test(case):
         oc = "NoOutcome"
         details = {}
     else:
-        oc = {"addSuccess": "Success", "addFailure": "Failure", "addError": "Error"}.get(outs[0][0], "NoOutcome")
+        oc = OUTCOMES.get(outs[0][0], "NoOutcome")
         details = outs[0][2] if len(outs[0]) > 2 and isinstance(outs[0][2], dict) else {}
     od = []
     for n, c in details.items():
@@ -349,8 +390,8 @@ def drive_test(case):
             continue
         if t.startswith("tok:"):
             od.append([n, int(t[4:])])
-    at = getattr(res, "at_outcome", [])
-    return {"raised": raised, "after": "teardown" in at and "cleanup" in at, "oc": oc, "details": sorted(od, key=lambda d: d[1])}
+    after = res.at_outcome is not None and res.at_outcome == (len(ran), len(ran)) and len(done) == len(ran)
+    return {"raised": ran, "after": after, "oc": oc, "details": sorted(od, key=lambda d: d[1])}
 
 
 def drive(case):
@@ -399,13 +440,24 @@ def term(case, o):
     if k in ("desc", "dexpr"):
         i = "(IDesc %s %s %s)" % (q.nat(case.get("id", 900)), q.boolean(not o.get("unmodelled", False)), q.boolean(o["hm"]))
         return q.pair(i, "(ODesc %s)" % q.lst([t_kind(x) for x in o["kinds"]]))
-    steps = q.lst([q.record([("s_kind", KINDS[kind]),
-                             ("s_mis", q.option(mis, lambda ds: q.lst([t_detail(d) for d in ds])))])
-                   for kind, mis, _ in case["steps"]])
-    i = "(ITest %s %s)" % (q.lst([t_detail(d) for d in case["pre"]]), steps)
-    ob = "(OTest %s %s %s %s)" % (q.lst([q.boolean(b) for b in o["raised"]]), q.boolean(o["after"]), o["oc"],
-                                  q.lst([t_detail(d) for d in o["details"]]))
+    i = "(ITest %s)" % q.record([("p_pre", q.lst([t_detail(d) for d in case["pre"]])),
+                                 ("p_setup", t_steps(case["setup"])), ("p_body", t_steps(case["body"])),
+                                 ("p_teardown", t_steps(case["teardown"])),
+                                 ("p_cleanups", q.lst([t_steps(c) for c in case["cleanups"]]))])
+    ob = "(OTest %s %s %s %s)" % (q.lst([q.lst([q.boolean(b) for b in l]) for l in o["raised"]]), q.boolean(o["after"]),
+                                  o["oc"], q.lst([t_detail(d) for d in o["details"]]))
     return q.pair(i, ob)
+
+
+def t_step(st):
+    kind, mis, _ = st
+    if kind == 3:
+        return q.record([("s_kind", "(Raise %s)" % EXCS[mis]), ("s_mis", "None")])
+    return q.record([("s_kind", KINDS[kind]), ("s_mis", q.option(mis, lambda ds: q.lst([t_detail(d) for d in ds])))])
+
+
+def t_steps(stmts):
+    return q.lst([t_step(st) for st in stmts])
 
 
 def perturb(case, o):
@@ -426,7 +478,7 @@ def nontrivial(case):
         return any(c in (39, 34, 92, 10) for c in case["s"])
     if k in ("desc", "dexpr"):
         return True
-    return len(case["steps"]) >= 2
+    return sum(len(case[f]) for f in ("setup", "body", "teardown")) + sum(len(c) for c in case["cleanups"]) >= 2
 
 
 from .gen_c07 import generate, shrink, distribution   # noqa: E402
